@@ -120,6 +120,12 @@ def run(ctx):
                 cases.append({"text": dtxt + " " + text, "ctx": "date", "D": D, "A": A, "B": B, "ts": ts0,
                               "label": "on-" + lab, "form": jl})
             cases.append({"text": text, "ctx": "latent", "A": A, "B": B, "ts": ts0, "label": "latent", "form": jl})
+    # "morgen" (tomorrow | in the morning) in front of a range of afternoon / evening hours can only be tomorrow: every joiner
+    for (a, b) in [(14, 16), (13, 18), (15, 23), (23, 3), (20, 21)]:
+        A, B = G.clock(a, 0), G.clock(b, 0)
+        for jl, text in G.range_texts(G.clock_text(a, 0), G.clock_text(b, 0)):
+            for ts in (ts0, (2020, 3, 15, 10, 30)):
+                cases.append({"text": "morgen " + text, "ctx": "date", "D": G.day("rel", 1), "A": A, "B": B, "ts": ts, "label": "on-morgen-afternoon", "form": jl})
     # the classic bare-number notation
     for (a, b) in [(9, 5), (9, 17), (8, 13), (10, 12), (3, 4)]:
         cases.append({"text": "tomorrow %d-%d" % (a, b), "ctx": "date", "D": G.day("rel", 1), "A": G.clock(a, 0), "B": G.clock(b, 0),
